@@ -850,10 +850,17 @@ func shapeSerialize(p *pkgFuncs, recv, handle string) {
 }
 
 func shapeHandles(p *pkgFuncs) {
-	// collect `X.Field = value` and `X = <constructor>` in the init functions
-	type asg struct{ lhs, rhs string }
+	// collect `X.Field = value` and `X = <constructor>` in the init functions,
+	// remembering in WHICH function each one stands
+	type asg struct{ lhs, rhs, fn string }
 	var all []asg
-	for name, fd := range p.funcs {
+	names := make([]string, 0, len(p.funcs))
+	for name := range p.funcs {
+		names = append(names, name)
+	}
+	sort.Strings(names)
+	for _, name := range names {
+		fd := p.funcs[name]
 		if !strings.HasPrefix(name, "init@") && name != "InitMsgpackHandle" {
 			continue
 		}
@@ -861,7 +868,7 @@ func shapeHandles(p *pkgFuncs) {
 			switch s := s.(type) {
 			case *ast.AssignStmt:
 				if len(s.Lhs) == 1 && len(s.Rhs) == 1 && s.Tok == token.ASSIGN {
-					all = append(all, asg{strings.Join(strings.Fields(render(s.Lhs[0])), ""), strings.Join(strings.Fields(render(s.Rhs[0])), "")})
+					all = append(all, asg{strings.Join(strings.Fields(render(s.Lhs[0])), ""), strings.Join(strings.Fields(render(s.Rhs[0])), ""), name})
 				} else {
 					fail("%s: statement not understood: %s", name, render(s))
 				}
@@ -871,6 +878,45 @@ func shapeHandles(p *pkgFuncs) {
 				}
 			default:
 				fail("%s: statement not understood: %s", name, render(s))
+			}
+		}
+	}
+	// A handle option must be set by the very function that constructs the
+	// handle: a handle can be constructed again later (InitMsgpackHandle is
+	// public and documented as the way to re-register extensions), and an
+	// option set elsewhere - e.g. in init() after the call - is then lost.
+	creator := map[string][]string{}
+	for _, a := range all {
+		if a.lhs == "jh" || a.lhs == "ch" || a.lhs == "mh" {
+			creator[a.lhs] = append(creator[a.lhs], a.fn)
+		}
+	}
+	for _, a := range all {
+		if len(a.lhs) > 3 && a.lhs[2] == '.' {
+			h := a.lhs[:2]
+			in := false
+			for _, c := range creator[h] {
+				if c == a.fn {
+					in = true
+				}
+			}
+			if !in && len(creator[h]) > 0 {
+				fail("%s is set in %s but the handle %s is constructed in %s: the option is lost when the handle is constructed again",
+					a.lhs, a.fn, h, strings.Join(creator[h], ", "))
+			}
+		}
+	}
+	for h, cs := range creator {
+		// every constructor of the handle must set MapType itself
+		for _, c := range cs {
+			has := false
+			for _, a := range all {
+				if a.fn == c && a.lhs == h+".MapType" {
+					has = true
+				}
+			}
+			if !has {
+				fail("%s constructs the handle %s without setting %s.MapType (maps decoded through that handle would be map[any]any)", c, h, h)
 			}
 		}
 	}
